@@ -1,6 +1,6 @@
 (* Model/Bolt.v (codec) - bolt and boltv2: Decode (protocol.go + decoder.go), Encode (encoder.go), the frame setters.
-   ONLY executable definitions.  Field offsets come from Gen/ProtoConsts.v (read from the Go source on every run),
-   the two repaired spots from Gen/CodecSrc.v (xp_hdr_checked, bolt_enc_checked).
+   ONLY executable definitions.  Field offsets are the constants of Model/CodecParams.v (compared with Gen/ProtoConsts.v, read from the Go source on every run, in Props),
+   the repaired spots likewise (xp_hdr_checked, bolt_enc_checked; Gen/CodecSrc.v).
 
    decodeRequest (decodeResponse alike):
      bytesLen < RequestHeaderLen                 -> (nil, nil)
@@ -11,7 +11,7 @@
      return request, err
    Protocol and CmdType of the command are the constants of the decode path, not the wire bytes. *)
 From Coq Require Import List NArith Bool.
-From MV Require Import Lib.Bytes Lib.Dec Lib.Seg Gen.ProtoConsts Gen.CodecSrc Model.HeaderKV.
+From MV Require Import Lib.Bytes Lib.Dec Lib.Seg Model.CodecParams Model.HeaderKV.
 Import ListNotations.
 Open Scope N_scope.
 
